@@ -4,11 +4,13 @@ import CV.Proofs.HuffSafe
 -/
 namespace CV.Huff
 
-/-- inputs on which `from_probabilities` is specified: at least one symbol, at most
-`usize::MAX / 4` symbols (the constructor's own guard), and the sum of all weights is
-representable in the weight type (otherwise the checked build panics with an overflow) -/
-def Admissible (wb : Option Nat) (ws : List Nat) : Prop :=
-  0 < ws.length ∧ ws.length ≤ usizeMax / 4 ∧ WeightsFit wb ws
+/-- the sum of all weights is representable in `n` bits (otherwise a checked build panics with
+an overflow somewhere in the constructor) -/
+def WeightsFit (n : Nat) (ws : List Nat) : Prop := ws.sum < 2^n
+
+/-- an admissible number of symbols: at least one, at most `usize::MAX / 4` (the encoder
+constructor's own guard) -/
+def SizeOK {α : Type} (ws : List α) : Prop := 0 < ws.length ∧ ws.length ≤ usizeMax / 4
 
 /-- length of the codeword `encode_symbol_prefix` emits for `s` (0 if it is rejected) -/
 def wordLen (en : List Nat) (s : Nat) : Nat :=
@@ -35,10 +37,39 @@ def assignCost (ws : List Nat) (c : Nat → List Bool) : Nat :=
 def PrefixFree (n : Nat) (c : Nat → List Bool) : Prop :=
   ∀ s1 s2, s1 < n → s2 < n → c s1 <+: c s2 → s1 = s2
 
-theorem admissible_build {wb : Option Nat} {ws : List Nat} (h : Admissible wb ws) :
-    ∃ en dn T, encTree wb ws = .ok en ∧ decTree wb ws = .ok dn ∧ huffTree ws = some T ∧
-      Built ws.length en dn T :=
-  build_ok wb ws h.1 h.2.1 h.2.2
+theorem noOverflow_zipIdx {n : Nat} {ws : List Nat} (h : WeightsFit n ws) :
+    NoOverflow n ws.zipIdx := by
+  simp only [NoOverflow, WeightsFit] at *
+  rw [List.zipIdx_map_fst 0 ws]; exact h
+
+/-- checked integer weights whose total fits: the constructors coincide with the exact ones -/
+theorem checked_eq_exact {n : Nat} {ws : List Nat} (h : WeightsFit n ws) :
+    encTree (checkedOps n) ws = encTree exactOps ws ∧
+    decTree (checkedOps n) ws = decTree exactOps ws ∧
+    huffTree (checkedOps n) ws = huffTree exactOps ws := by
+  have hno := noOverflow_zipIdx h
+  refine ⟨?_, ?_, treeLoop_checked n _ _ _ hno⟩
+  · simp only [encTree]
+    split
+    · rfl
+    · exact encLoop_checked n _ _ _ _ hno
+  · simp only [decTree]
+    split
+    · rfl
+    · exact decLoop_checked n _ _ _ _ hno
+
+/-- a weight type whose `+` never panics: both constructors succeed on every admissible size -/
+theorem total_build {α : Type} {ops : WeightOps α} (ht : Total ops) {ws : List α}
+    (hs : SizeOK ws) :
+    ∃ en dn T, encTree ops ws = .ok en ∧ decTree ops ws = .ok dn ∧ huffTree ops ws = some T ∧
+      Built ws.length en dn T := by
+  have hne : ws.zipIdx ≠ [] := by
+    intro e
+    have : ws.zipIdx.length = 0 := by rw [e]; rfl
+    rw [List.length_zipIdx] at this; have := hs.1; omega
+  obtain ⟨T, hT⟩ := treeLoop_total ops ht ws.length ws.zipIdx ws.length (by simp) hne
+  obtain ⟨en, dn, he, hd, B⟩ := build_of_tree (ops := ops) hs.1 hs.2 hT
+  exact ⟨en, dn, T, he, hd, hT, B⟩
 
 theorem Built.wordLen_eq {n : Nat} {en : List Nat} {dn : List (Nat × Nat)} {T : Tree}
     (B : Built n en dn T) {s : Nat} (hs : s < n) : wordLen en s = T.depth s := by
